@@ -57,6 +57,9 @@ pub struct Store {
     transaction: CurrentTransaction,
     open_replicas: HashSet<NamespaceId>,
     pubkeys: MemPublicKeyStore,
+    /// While set, the age based auto-commit in `tables` and `modify` is suspended, so that the
+    /// steps of an insert end up in the same commit.
+    hold_commit: bool,
 }
 
 impl Drop for Store {
@@ -162,6 +165,7 @@ impl Store {
             transaction: Default::default(),
             open_replicas: Default::default(),
             pubkeys: Default::default(),
+            hold_commit: false,
         })
     }
 
@@ -238,7 +242,7 @@ impl Store {
             CurrentTransaction::Write(w) => {
                 #[cfg(feature = "verif")]
                 let w = crate::verif::age_transaction(w, verif_age);
-                if w.since.elapsed() > MAX_COMMIT_DELAY {
+                if !self.hold_commit && w.since.elapsed() > MAX_COMMIT_DELAY {
                     tracing::debug!("committing transaction because it's too old");
                     w.commit()?;
                     let tx = self.db.begin_write()?;
@@ -281,7 +285,7 @@ impl Store {
             CurrentTransaction::Write(w) => {
                 #[cfg(feature = "verif")]
                 let w = crate::verif::age_transaction(w, verif_age);
-                if w.since.elapsed() > MAX_COMMIT_DELAY {
+                if !self.hold_commit && w.since.elapsed() > MAX_COMMIT_DELAY {
                     tracing::debug!("committing transaction because it's too old");
                     w.commit()?;
                     let tx = self.db.begin_write()?;
@@ -772,6 +776,16 @@ impl<'a> crate::ranger::Store<SignedEntry> for StoreInstance<'a> {
         }
 
         Ok(fp)
+    }
+
+    fn hold_commit(&mut self, hold: bool) -> Result<()> {
+        let store = self.store.as_mut();
+        if hold {
+            // take the age based commit decision now, once for the whole operation
+            store.tables()?;
+        }
+        store.hold_commit = hold;
+        Ok(())
     }
 
     fn entry_put(&mut self, e: SignedEntry) -> Result<()> {
